@@ -157,9 +157,10 @@ class Interposer:
                     rec["data_sha"] = hashlib.sha256(data.encode("utf-8") if isinstance(data, str) else bytes(data)).hexdigest()
                 except Exception:
                     pass
-            self.records.append(rec)
         if self.gate is not None and new_group:
             self.gate(w, rec)
+        with self.lock:
+            self.records.append(rec)    # global order = order of execution (after the gate)
         self._log("B", rec)
         if self.kill is not None and self.kill == k and w == self.plan.get("kill_writer", 0):
             if self.kill_mid and mid is not None:
@@ -655,9 +656,25 @@ def call_entry(entry: str, args: dict):
     raise ValueError(entry)
 
 
+_PRELOADED = False
+
+
+def preload():
+    """Import the implementation once in the (pool worker) process, so that forked children do not pay for it."""
+    global _PRELOADED
+    if not _PRELOADED:
+        import asyncio  # noqa: F401
+        import click  # noqa: F401
+        import octave_mcp.cli.main  # noqa: F401
+        import octave_mcp.core.file_ops  # noqa: F401
+        import octave_mcp.mcp.write  # noqa: F401
+        _PRELOADED = True
+
+
 def run_child(entry: str, args: dict, root: str, target: str, src_root: str, plan: dict | None = None, timeout: float = 60.0):
     """Fork; the child runs the entry point under interposition and reports through a pipe.
     Returns {"result": dict|None, "records": [...], "killed": bool, "exit": int}."""
+    preload()
     rfd, wfd = os.pipe()
     sys.stdout.flush()
     sys.stderr.flush()
@@ -713,3 +730,139 @@ def run_child(entry: str, args: dict, root: str, target: str, src_root: str, pla
             harness_error = payload
     return {"result": result, "records": [recs[k] for k in order], "killed": killed or exitcode == 137, "exit": exitcode,
             "harness_error": harness_error}
+
+
+# ------------------------------------------------------------------------------------------------------
+# Two (or more) writers in threads, file-system calls gated by a deterministic scheduler
+# ------------------------------------------------------------------------------------------------------
+
+class Scheduler:
+    """Grants one *model step* (group of calls) at a time, in the order of `schedule` (list of writer ids).
+    Turns of finished writers are skipped; when the schedule is exhausted the unfinished writer with the
+    lowest id runs.  A writer holds the turn from the gate it passed until it reaches its next gate or
+    finishes, so exactly one writer runs at any time: the execution is a deterministic interleaving."""
+
+    def __init__(self, schedule, writers, timeout=30.0):
+        self.schedule = list(schedule)
+        self.pos = 0
+        self.writers = set(writers)
+        self.done: set = set()
+        self.running = None
+        self.cv = threading.Condition()
+        self.timeout = timeout
+        self.granted: list = []       # the realised schedule
+        self.error = None
+
+    def _next(self):
+        while self.pos < len(self.schedule) and self.schedule[self.pos] in self.done:
+            self.pos += 1
+        if self.pos < len(self.schedule):
+            return self.schedule[self.pos]
+        rest = sorted(self.writers - self.done)
+        return rest[0] if rest else None
+
+    def gate(self, w, _rec=None):
+        with self.cv:
+            if self.running == w:
+                self.running = None
+                self.cv.notify_all()
+            while not (self.running is None and self._next() == w):
+                if not self.cv.wait(self.timeout):
+                    self.error = f"scheduler timeout: writer {w} waiting at pos {self.pos}, running={self.running}, done={self.done}"
+                    raise RuntimeError(self.error)
+            self.running = w
+            self.granted.append(w)
+            if self.pos < len(self.schedule):
+                self.pos += 1
+
+    def finish(self, w):
+        with self.cv:
+            self.done.add(w)
+            if self.running == w:
+                self.running = None
+            self.cv.notify_all()
+
+
+def run_writers(entry: str, args_list: list, root: str, target: str, src_root: str, schedule: list):
+    """Runs len(args_list) writers in threads under one interposer, gated by `schedule`.
+    Returns {"results": [...], "records": [...global order...], "granted": [...]}.  To be called in a forked child
+    or a pool worker (patches module attributes while it runs)."""
+    preload()
+    n = len(args_list)
+    sched = Scheduler(schedule, range(n))
+    ip = Interposer(root, target, src_root, {}, gate=sched.gate).install()
+    results: list = [None] * n
+    errors: list = []
+
+    def body(i):
+        ip.tl.writer = i
+        try:
+            # the first gate: a writer does not start before the schedule lets it take its first step
+            results[i] = call_entry(entry, args_list[i])
+        except BaseException as e:  # scheduler timeout or harness bug
+            errors.append(f"writer {i}: {type(e).__name__}: {e}")
+        finally:
+            sched.finish(i)
+    threads = [threading.Thread(target=body, args=(i,), daemon=True) for i in range(n)]
+    ip.arm()
+    try:
+        for t in threads:
+            t.start()
+        for t in threads:
+            t.join(120)
+            if t.is_alive():
+                errors.append("writer thread did not finish")
+    finally:
+        ip.disarm()
+        ip.uninstall()
+    return {"results": results, "records": list(ip.records), "granted": list(sched.granted), "errors": errors}
+
+
+def run_in_loop(args_list: list, root: str, target: str, src_root: str):
+    """All calls as tasks of ONE event loop (asyncio.gather): the calls of each task are attributed through the
+    current task's name.  Returns results and the global call order."""
+    import asyncio
+    preload()
+    from octave_mcp.mcp.write import WriteTool
+    ip = Interposer(root, target, src_root, {}).install()
+
+    class _W:
+        @property
+        def writer(self):
+            try:
+                t = asyncio.current_task()
+            except RuntimeError:
+                t = None
+            return int(t.get_name()[1:]) if t is not None and t.get_name().startswith("w") else 0
+    real_tl = ip.tl
+
+    class _TLProxy:
+        def __getattr__(self, n):
+            if n == "writer":
+                return _W().writer
+            return getattr(real_tl, n)
+
+        def __setattr__(self, n, v):
+            setattr(real_tl, n, v)
+    ip.tl = _TLProxy()
+    tool = WriteTool()
+
+    async def main():
+        tasks = [asyncio.ensure_future(tool.execute(**a)) for a in args_list]
+        for i, t in enumerate(tasks):
+            t.set_name(f"w{i}")
+        return await asyncio.gather(*tasks, return_exceptions=True)
+    ip.arm()
+    try:
+        res = asyncio.run(main())
+    finally:
+        ip.disarm()
+        ip.uninstall()
+    out = []
+    for r in res:
+        if isinstance(r, BaseException):
+            out.append({"status": "raised", "exc": type(r).__name__})
+        else:
+            codes = [e.get("code") for e in r.get("errors", [])]
+            out.append({"status": r.get("status"), "code": codes[0] if codes else None, "hash": r.get("canonical_hash")})
+    return {"results": out, "records": list(ip.records)}
